@@ -2,6 +2,7 @@
 import glob
 import json
 import os
+import time
 
 from harness import core
 from harness.suites import determinism
@@ -21,19 +22,33 @@ MANIFEST = dict(
          'unsorted / sorted iterations over set-derived values, class-level mutable state, ad-hoc import literals, '
          'iterations over by-name dicts and ambient sources (clock, pid, listdir, id, hash); `sites_covered`, '
          '`sort_sites_covered`, `class_state_covered`, `no_ambient_sources` (by `decide` / `rfl`) break the build when '
-         'a new one appears. Class-level caches: `class_cache_history_free`, `tracker_history_free`. '
+         'a new one appears. Class-level caches: `class_cache_history_free`, `tracker_history_free`; no class-level '
+         'container is ever iterated (`class_state_never_iterated`), the frontend ones are lookup-only '
+         '(`frontend_class_state_lookup_only`). Output directory that already holds files: on a model of '
+         '`Backend.output_to_relative_path` (directory = path -> bytes, modes wb / ab) every file opened with wb holds '
+         'exactly the promised bytes whatever the directory held (`build_meets_promise`, `build_history_free`); a '
+         'write that skips files which "already hold the output" when read in text mode is proved history dependent '
+         '(`skip_text_compare_history_dependent`); the places where the generators look at the file system at all '
+         '(exists / isfile / getsize / stat / every open that is not a plain truncate) and the modes handed to '
+         'output_to_relative_path are pinned (`fs_reads_pinned`, `output_modes_pinned`, `output_modes_modelled`). '
          'Observed by testing, NOT proved: that hash seeds, separate processes, output directories and process '
          'history change nothing -- byte comparison of all files of 14 backend invocations (option sets with several --extra-arg / --attribute-comment keyed on route attributes) across fresh interpreters '
-         '(PYTHONHASHSEED 0 / random, two output directories) and single interpreters that ran an unrelated spec or an ABORTED build of the same backend, the '
+         '(PYTHONHASHSEED 0 / random, two output directories), into output directories that already hold files (the earlier '
+         'output untouched, with CR LF / CR line ends, a BOM, longer / shorter / same-size stale files with old or future '
+         'time stamps, no final newline, trailing blanks, bytes that are not UTF-8, a stale file of another name) and single interpreters that ran an unrelated spec or an ABORTED build of the same backend, the '
          'same backend on it and other backends before; and that the site models are the code (differential runs on '
-         'the modelled lines).',
+         'the modelled lines; the write model against the real Backend class scripted with (path, mode, text) lists '
+         'on pre-filled directories).',
     note='Trusted: Lean kernel, translator (the dataflow of ex_setiter.py is function-local and by attribute name; it '
          'over-approximates but a set smuggled through an untracked container is missed and only the byte comparison '
          'can see it), CPython set/dict semantics (dicts keep insertion order; only sets and what is filled from them '
          'are unordered), specgen + the generated block, the 13 argument sets. The dependency search of the route '
          'whitelist is covered only up to "the visited set does not depend on the traversal order" '
          '(`whitelist_types_order_free_partial`). Caller names and annotation texts are modelled for strings without '
-         'quotes / backslashes.',
+         'quotes / backslashes. Output directory: a zero-byte file is never made stale (the package marker __init__.py is '
+         'opened for appending: created when missing, its content is the user\'s); stale files of other names that survive '
+         'a run are not judged; `shutil.copy` of resource files and the Swift backends\' own writer are covered by the '
+         'byte comparison only; paths are modelled as given (no normpath).',
     technique='Lean 4 proof (order as adversarial parameter) + translator site coverage + multi-process byte comparison '
               '(testing) + differential correspondence',
     design='5 C12')
@@ -53,13 +68,19 @@ def corpus_cases(ck):
 
 
 def run(ck):
+    t0 = time.time()
     ck.build_and_audit()
+    t1 = time.time()
     cases = corpus_cases(ck) + determinism.hand_cases()
     n = ck.scale(4, 144)
     cases += [determinism.gen_case(ck.seed, i) for i in range(n)]
     if os.path.exists(core.DRIVER):
         determinism.suite_sites(ck, cases)
+    determinism.suite_outdir(ck)
+    t2 = time.time()
     info = determinism.suite_bytes(ck, cases)
+    ck.note('wall time: build + audit %.0f s, site models %.0f s, byte comparison %.0f s' % (
+        t1 - t0, t2 - t1, time.time() - t2))
     ck.assumptions.extend([
         'the frontend gives namespaces unique names and data types unique names inside a namespace (sort keys of '
         'normalize / get_imported_namespaces are injective on what they sort)',
